@@ -80,19 +80,27 @@ impl WriteCircuitBreaker {
                 let last_failure = self.last_failure_time.load(Ordering::Acquire);
 
                 if now.saturating_sub(last_failure) >= self.recovery_timeout.as_millis() as u64 {
-                    // Transition to half-open to test recovery
+                    // Transition to half-open to test recovery. This request then counts
+                    // as a half-open probe like any other, whichever thread won the
+                    // transition.
                     self.transition_to_half_open();
-                    true
+                    match self.current_state() {
+                        CircuitState::Closed => true,
+                        CircuitState::Open => false,
+                        CircuitState::HalfOpen => self.admit_half_open_call(),
+                    }
                 } else {
                     false // Still in failure mode
                 }
             }
-            CircuitState::HalfOpen => {
-                // Allow limited requests to test system recovery
-                let current_calls = self.half_open_call_count.fetch_add(1, Ordering::AcqRel);
-                current_calls < self.half_open_max_calls
-            }
+            CircuitState::HalfOpen => self.admit_half_open_call(),
         }
+    }
+
+    /// Allow limited requests to test system recovery
+    fn admit_half_open_call(&self) -> bool {
+        let current_calls = self.half_open_call_count.fetch_add(1, Ordering::AcqRel);
+        current_calls < self.half_open_max_calls
     }
 
     pub fn record_success(&self) {
@@ -198,9 +206,9 @@ impl WriteCircuitBreaker {
         );
         #[cfg(sierradb_verif)]
         crate::verif::point("cb.half_open.after_cas", &[]);
-        // Reset half-open counters
-        self.half_open_call_count.store(0, Ordering::Release);
-        self.half_open_success_count.store(0, Ordering::Release);
+        // The half-open counters are already zero here: they are reset whenever the
+        // breaker leaves half-open (transition_to_open / transition_to_closed).
+        // Resetting them again would discard probes counted by other threads.
     }
 
     fn transition_to_closed(&self) {
